@@ -448,6 +448,7 @@ func (r *Rerunner) run() {
 			}
 		})
 	}
+	verifEv("yield", r, nil)
 }
 
 func (r *Rerunner) Stop() {
